@@ -79,9 +79,9 @@ CLAIMED['C20'] = dict(
     technique='Coq proof (lock invariant over all schedules of an interleaving model) + controlled-schedule execution of the real code')
 
 CLAIMED['C01'] = dict(
-    text='PARTIAL (TCP re-issue not proved). Coq theorem for ICMP and UDP over all input histories: every published round is exactly, slot by slot, the status list computed from the '
+    text='Coq theorem for ICMP, UDP and TCP (incl. re-issued probes) over all input histories: every published round is exactly, slot by slot, the status list computed from the '
          'network-level history of that round - Failed iff the send reported a transient failure, Complete (with the fields of the probe as sent and of the response) iff a genuine response '
-         '(validate, trace id, sequence issued in this round, probe still awaiting) was delivered before the round was published, the first one winning, Awaited otherwise; none invented, dropped or duplicated; '
+         '(validate, trace id, sequence issued in this round, probe still awaiting) was delivered before the round was published, the first one winning, Skipped iff the send reported address-in-use and the probe was re-issued, Awaited otherwise; none invented, dropped or duplicated; '
          'the ghost run publishes exactly the rounds of the real run. Snapshot totals: the aggregator model applied to the published rounds is compared with the real Tracer snapshot, and an independent '
          'recomputation oracle checks the per-hop sums. Ground-truth oracle from the simulator for all protocols incl. TCP.',
     note=STRAT_NOTE + ' Stated at the Network interface (what Channel hands to / receives from the strategy); the byte-level link (a response packet quoting probe p is genuine for p) belongs to C02.',
